@@ -188,7 +188,11 @@ type genParams struct {
 	unit      uint64           // coin granularity (1 pure, 1000 at node level: the documented decimal restriction)
 	extra     []cipher.Address // destination addresses other than the owners
 	changeSet []cipher.Address // candidates for an explicit change address
+	force     string           // sessions: take this recipe instead of drawing one ("" = draw)
+	forceAuto bool             // sessions: automatic hours
 }
+
+var forcedRecipe = map[string]int{"random": 10, "exact-all": 35, "exact-top": 50, "one-left": 70, "small": 75}
 
 func u64(b *big.Int) uint64 {
 	if b.IsUint64() {
@@ -238,6 +242,9 @@ func genRequest(rng *rand.Rand, q *request, gp genParams) {
 
 	// hours mode
 	q.manual = rng.Intn(100) < 45
+	if gp.forceAuto {
+		q.manual = false
+	}
 	q.typ, q.mode = "auto", "share"
 	if q.manual {
 		q.typ, q.mode = "manual", ""
@@ -266,6 +273,9 @@ func genRequest(rng *rand.Rand, q *request, gp genParams) {
 	x := rng.Intn(100)
 	if len(q.off) == 1 && x < 45 {
 		x = 94 // single offered output: favour the mirror recipe
+	}
+	if fx, ok := forcedRecipe[gp.force]; ok {
+		x = fx
 	}
 	switch {
 	case sumC == 0:
